@@ -338,8 +338,14 @@ structure PdInv (proj : Project) (s : St) : Prop where
     x ∈ childNames proj m ∨ ∃ st ∈ bodyOf proj m, st.defName = some x
   alls : ∀ m l, getAll s m = some l → ∀ x ∈ l, x ∈ allNames (bodyOf proj m)
   started : ∀ i S, path s.reg i = some (sitePath proj S) → StaticSite proj S → S.2 ≠ [] → getPs s S.1 ≠ .unprocessed
-  cinfo : ∀ c, initialBases s c = []
+  cinfo : ∀ c ci, dget s.cinfo c = some ci → ci.raw = [] ∧ ci.expanded = [] ∧ ci.objs = []
   complete : ∀ m md, proj[m]? = some md → getPs s m = .processed → CompleteStmts s m md.body
+
+theorem PdInv.initialBases_nil {proj : Project} {s : St} (hI : PdInv proj s) (c : Nat) : initialBases s c = [] := by
+  unfold initialBases
+  cases hd : dget s.cinfo c with
+  | none => rfl
+  | some ci => simp [(hI.cinfo c ci hd).2.2]
 
 /-! ## `setAlias` -/
 
@@ -1209,7 +1215,7 @@ theorem mroOf_mid {proj : Project} {s : St} (hI : PdInv proj s) (c : Nat) : Name
   | some v =>
     unfold midMro at hd
     have := dget_map_key (fun c => Mro.allbasesFuel (initialBases s) (fun _ => false) (s.reg.objs.length + 1) c) _ _ _ hd
-    simp only [Option.getD_some, this, Mro.allbasesFuel, hI.cinfo c, List.filter_nil, List.flatMap_nil]
+    simp only [Option.getD_some, this, Mro.allbasesFuel, hI.initialBases_nil c, List.filter_nil, List.flatMap_nil]
 
 theorem classFind_mid {proj : Project} {s : St} (hI : PdInv proj s) {c : Nat} {o : Obj}
     (ho : s.reg.objs[c]? = some o) (x : Name) : Names.classFind (envOf s) c x = dget o.contents x := by
@@ -1301,13 +1307,10 @@ theorem findClass_of_mem {proj : Project} {rank : List Nat} (wf : WFacts proj ra
   injection this with _ _ h3
   rw [hf, h3]
 
-theorem initialBases_append {s : St} {c : Nat} {ci : ClsInfo} (hci : ci.objs = []) (hold : ∀ c, initialBases s c = []) :
-    ∀ c', initialBases { s with cinfo := s.cinfo ++ [(c, ci)] } c' = [] := by
-  intro c'
-  have h0 := hold c'
-  unfold initialBases at h0 ⊢
-  simp only
-  -- `dget` on an appended list: the old entry if there is one, else the new
+theorem cinfo_append {s : St} {c : Nat} {ci : ClsInfo} (hci : ci.raw = [] ∧ ci.expanded = [] ∧ ci.objs = [])
+    (hold : ∀ c ci, dget s.cinfo c = some ci → ci.raw = [] ∧ ci.expanded = [] ∧ ci.objs = []) :
+    ∀ c' ci', dget (s.cinfo ++ [(c, ci)]) c' = some ci' → ci'.raw = [] ∧ ci'.expanded = [] ∧ ci'.objs = [] := by
+  intro c' ci' h
   have key : ∀ (l : List (Nat × ClsInfo)), dget (l ++ [(c, ci)]) c' =
       match dget l c' with | some v => some v | none => (if c = c' then some ci else none) := by
     intro l
@@ -1319,13 +1322,14 @@ theorem initialBases_append {s : St} {c : Nat} {ci : ClsInfo} (hci : ci.objs = [
       split
       · rfl
       · exact ih
-  rw [key]
+  rw [key] at h
   cases hd : dget s.cinfo c' with
-  | some v => simp only [hd] at h0 ⊢; exact h0
+  | some v => simp only [hd, Option.some.injEq] at h; subst h; exact hold c' v hd
   | none =>
+    simp only [hd] at h
     by_cases hcc : c = c'
-    · simp [hcc, hci]
-    · simp [hcc]
+    · simp only [hcc, if_true, Option.some.injEq] at h; subst h; exact hci
+    · simp [hcc] at h
 
 theorem enterClass_ok {proj : Project} {rank : List Nat} (wf : WFacts proj rank) {s : St} (hI : PdInv proj s)
     {mod ctx : Nat} {S : Site} {full : List Stmt} (hc : Ctx proj s mod ctx S full) {n : Name} {bs : List Path}
@@ -1350,7 +1354,7 @@ theorem enterClass_ok {proj : Project} {rank : List Nat} (wf : WFacts proj rank)
       show getPs s1 t ≠ _; rw [h]; simp⟩⟩
   have hI2 : PdInv proj { s1 with cinfo := s1.cinfo ++ [(s.reg.objs.length, ⟨ctx, [], [], []⟩)] } :=
     { reg := h1.reg, lens := h1.lens, mods := h1.mods, site := h1.site, alias := h1.alias, cont := h1.cont,
-      alls := h1.alls, started := h1.started, cinfo := initialBases_append rfl h1.cinfo,
+      alls := h1.alls, started := h1.started, cinfo := cinfo_append ⟨rfl, rfl, rfl⟩ h1.cinfo,
       complete := fun m md hm hp => CompleteStmts.ext hext1 _ (h1.complete m md hm hp) }
   refine ⟨hI2, h2.trans hext1, ?_, ⟨po, hpo, hd⟩⟩
   have hc1 := hc.ext h2
@@ -1488,8 +1492,7 @@ theorem processModule_ok {proj : Project} {rank : List Nat} (wf : WFacts proj ra
             by_cases htm : S.1 = m
             · simp [htm]
             · simp only [htm, if_false]; exact hI.started i S (hreg2 ▸ hp) hS hne'
-          cinfo := by
-            intro c; have := hI.cinfo c; unfold initialBases at this ⊢; rw [← hs2]; exact this
+          cinfo := by rw [← hs2]; exact hI.cinfo
           complete := by
             intro t md ht hp
             rw [hps2] at hp
@@ -1772,7 +1775,7 @@ theorem initSt_ok {proj : Project} {rank : List Nat} (wf : WFacts proj rank) (hb
         rw [hp] at hp'; injection hp' with hp'
         have := site_unique wf hS (⟨hi, Or.inl rfl⟩ : StaticSite proj (i, [])) (by simpa [sitePath] using hp')
         rw [this] at hne; exact hne rfl
-      cinfo := fun c => by unfold initialBases; rw [hI.cinfo]; rfl
+      cinfo := fun c ci h => by rw [hI.cinfo] at h; simp [dget] at h
       complete := by
         intro m md hm hp
         have hlt : m < proj.length := (List.getElem?_eq_some_iff.1 hm).1
@@ -1832,5 +1835,107 @@ theorem process_ok {proj : Project} {rank : List Nat} (wf : WFacts proj rank) :
         | processing => exact absurd hp (hn t)
         | unprocessed => exact absurd hp hu
       · exact hord t ht'
+
+theorem run_ok {proj : Project} {rank : List Nat} (wf : WFacts proj rank) (order : List Nat)
+    (hb : (run proj order).bad = false) :
+    PdInv proj (run proj order) ∧ NoProcessing (run proj order) ∧
+    ∀ m ∈ order, getPs (run proj order) m = .processed := by
+  unfold run at hb ⊢
+  have hb0 := process_bad order _ hb
+  obtain ⟨hI0, hn0⟩ := initSt_ok wf hb0
+  obtain ⟨h1, h2, _, h4⟩ := process_ok wf order _ hI0 hn0 hb
+  exact ⟨h1, h2, h4⟩
+
+/-! ## name resolution on a finished state -/
+
+theorem CompleteStmts.mem {s : St} {ctx : Nat} : ∀ {body : List Stmt} {st : Stmt}, CompleteStmts s ctx body → st ∈ body →
+    CompleteStmt s ctx st
+  | [], _, _, h => by cases h
+  | x :: xs, st, hc, h => by
+    simp only [CompleteStmts] at hc
+    rcases List.mem_cons.1 h with rfl | h'
+    · exact hc.1
+    · exact CompleteStmts.mem hc.2 h'
+
+theorem complete_entry {s : St} {ctx : Nat} {st : Stmt} {x : Name} (hc : CompleteStmt s ctx st)
+    (hx : x ∈ explicitNames st) : HasEntry s ctx x := by
+  cases st with
+  | classDef n bs body =>
+    simp only [explicitNames, List.mem_singleton] at hx; subst hx
+    simp only [CompleteStmt] at hc
+    obtain ⟨c, o, po, hpo, hd, _⟩ := hc
+    exact ⟨po, hpo, Or.inl (by rw [hd]; simp)⟩
+  | importMod t a => simp only [CompleteStmt] at hc; exact hc x hx
+  | importFrom l M n a =>
+    simp only [explicitNames, List.mem_singleton] at hx; subst hx
+    simpa only [CompleteStmt] using hc
+  | importStar l M => simp [explicitNames] at hx
+  | funcDef n =>
+    simp only [explicitNames, List.mem_singleton] at hx; subst hx
+    simpa only [CompleteStmt] using hc
+  | assign n v =>
+    simp only [explicitNames, List.mem_singleton] at hx; subst hx
+    simpa only [CompleteStmt] using hc
+  | allAssign l => simp [explicitNames] at hx
+
+/-- following a chain of class names through complete bodies -/
+theorem complete_walk {proj : Project} {s : St} (hI : PdInv proj s) :
+    ∀ (cs : List Name) (ctx : Nat) (pp : Path) (body b : List Stmt), CompleteStmts s ctx body →
+      path s.reg ctx = some pp → bodyAt body cs = some b →
+      ∃ j, path s.reg j = some (pp ++ cs) ∧ CompleteStmts s j b
+  | [], ctx, pp, body, b, hc, hp, hb => by
+    simp only [bodyAt, Option.some.injEq] at hb; subst hb
+    exact ⟨ctx, by simpa using hp, hc⟩
+  | c :: cs, ctx, pp, body, b, hc, hp, hb => by
+    simp only [bodyAt] at hb
+    cases hf : findClass body c with
+    | none => simp [hf] at hb
+    | some b1 =>
+      simp only [hf] at hb
+      obtain ⟨bs, hm⟩ := findClass_mem hf
+      have h1 := hc.mem hm
+      simp only [CompleteStmt] at h1
+      obtain ⟨cid, o, po, hpo, hd, _, _, hcb⟩ := h1
+      have hpc := path_child hI.reg hpo hd hp
+      obtain ⟨j, hj, hcj⟩ := complete_walk hI cs cid (pp ++ [c]) b1 b hcb hpc hb
+      exact ⟨j, by simpa using hj, hcj⟩
+
+/-- the object of a class scope holds an entry for every statement of the class body -/
+theorem class_complete {proj : Project} {s : St} (hI : PdInv proj s) (hn : NoProcessing s) {i : Nat} {S : Site}
+    {b : List Stmt} (hp : path s.reg i = some (sitePath proj S)) (hS : StaticSite proj S) (hne : S.2 ≠ [])
+    (hb : siteBody proj S = some b) : CompleteStmts s i b := by
+  have hst := hI.started i S hp hS hne
+  have hlt := hS.1
+  have hmd : proj[S.1]? = some proj[S.1] := by simp [hlt]
+  have hproc : getPs s S.1 = .processed := by
+    cases h : getPs s S.1 with
+    | processed => rfl
+    | processing => exact absurd h (hn S.1)
+    | unprocessed => exact absurd h hst
+  have hc := hI.complete S.1 _ hmd hproc
+  obtain ⟨o, ho, hpm, _⟩ := hI.mods S.1 hlt
+  have hb' := siteBody_bodyAt hb
+  rw [bodyOf_eq hmd] at hb'
+  obtain ⟨j, hj, hcj⟩ := complete_walk hI S.2 S.1 _ _ b hc hpm hb'
+  have : j = i := by
+    have h1 := dget_of_path hI.reg hj
+    have h2 := dget_of_path hI.reg hp
+    simp only [sitePath] at h2
+    rw [h1] at h2; injection h2
+  subst this; exact hcj
+
+theorem jpd_ne_nil {proj : Project} {rank : List Nat} (wf : WFacts proj rank) :
+    ∀ {S : Site} {x : Name} {tgt : Path}, Jpd proj S x tgt → tgt ≠ [] := by
+  intro S x tgt h
+  induction h with
+  | @importAs S b tgt x hb hst =>
+    obtain ⟨t', ht', _⟩ := wf.targets hb hst (modIdx proj tgt) (by simp [stmtTargets])
+    obtain ⟨hlt, hp⟩ := modIdx_spec ht'
+    rw [← hp]; exact (wf.parentOk t' hlt).1
+  | importTop _ _ => simp
+  | «from» _ _ _ => simp
+  | starChild _ _ _ _ _ _ => simp
+  | starAlias _ _ _ _ _ _ ih => exact ih
+  | starNone _ _ _ _ _ => simp
 
 end Imports
